@@ -2,7 +2,9 @@ package auth
 
 import (
 	"fmt"
+	"os"
 	"strings"
+	"time"
 
 	"github.com/anyproto/any-sync/commonspace/object/tree/treechangeproto"
 
@@ -201,7 +203,7 @@ func (tc *treeCase) pickRecord(min int, any bool) string {
 	x := tc.r.Intn(100)
 	var i int
 	switch {
-	case x < 5:
+	case x < 3:
 		tc.r.Count("cite.fake-id")
 		return realCid([]byte(fmt.Sprint("norec", tc.nextTs())))
 	case x < 45 && len(tc.w.marks) > 0:
@@ -228,11 +230,11 @@ func (tc *treeCase) pickRecord(min int, any bool) string {
 func (tc *treeCase) pickAuthor() *acct {
 	x := tc.r.Intn(100)
 	switch {
-	case x < 35:
+	case x < 42:
 		if a := tc.w.byName["a"]; a != nil {
 			return a
 		}
-	case x < 60:
+	case x < 75:
 		return tc.w.byName["o"]
 	}
 	for {
@@ -258,7 +260,8 @@ func runCase(h *harnessState, w *world, caseNo int) {
 	if r.Chance(35) {
 		tc.recvK = 1 + r.Intn(n)
 	}
-	if w.hasReadd && r.Chance(35) {
+	readdDirected := false
+	if w.hasReadd && r.Chance(55) {
 		// directed at F-acl-readd: the receiver first knows the log up to just before the re-add
 		for i, es := range w.effs {
 			for _, e := range es {
@@ -273,6 +276,7 @@ func runCase(h *harnessState, w *world, caseNo int) {
 					}
 					if known {
 						tc.recvK = i
+						readdDirected = true
 					}
 				}
 			}
@@ -282,7 +286,9 @@ func runCase(h *harnessState, w *world, caseNo int) {
 	if r.Chance(20) {
 		tc.recvKeys = w.byName["z"].keys
 	}
+	stopRecv := timed("receiver")
 	recv, err := w.receiver(tc.recvK, tc.recvKeys)
+	stopRecv()
 	if err != nil {
 		r.Fatal("receiver ACL: " + err.Error())
 	}
@@ -467,8 +473,8 @@ func runCase(h *harnessState, w *world, caseNo int) {
 		deliver(batch, "redeliver-all")
 	}
 	// full validation later, possibly after the receiver learnt the rest of the ACL log
-	if r.Chance(60) {
-		if tc.recvK < n && r.Chance(70) {
+	if r.Chance(60) || readdDirected {
+		if tc.recvK < n && (r.Chance(70) || readdDirected) {
 			tc.extendAcl(tc.recvK + 1 + r.Intn(n-tc.recvK))
 			if tc.reopen("after-acl-growth") && len(pool) > 0 && r.TimeLeft() {
 				// one more batch after the growth: changes citing freshly known records
@@ -486,14 +492,24 @@ func runCase(h *harnessState, w *world, caseNo int) {
 	}
 }
 
+var tmr = map[string]time.Duration{}
+
+func timed(k string) func() {
+	t := time.Now()
+	return func() { tmr[k] += time.Since(t) }
+}
+
 func Run(r *corr.Run) {
+	if os.Getenv("VERIF_AUTH_TIMING") != "" {
+		defer func() { fmt.Fprintln(os.Stderr, "timing:", tmr) }()
+	}
 	r.SetRule("a case counts as non-trivial when, on one tree over one ACL history, at least one delivered batch was accepted (state changed) and at least one was rejected; distinctness = hash of the full op trace")
 	h := newHarness(r)
 	defer h.close()
 	// corpus: every named ACL history once, then random ones
 	var worlds []*world
 	for k := 0; k < 8; k++ {
-		worlds = append(worlds, buildHistory(r, k))
+		func() { defer timed("world")(); worlds = append(worlds, buildHistory(r, k)) }()
 	}
 	perWorld := r.Pick(6, 40)
 	caseNo := 0
@@ -503,9 +519,6 @@ func Run(r *corr.Run) {
 				runCase(h, w, caseNo)
 				caseNo++
 			}
-		}
-		if round >= r.Pick(1, 1_000_000) {
-			break
 		}
 		// fresh histories with other random tails
 		worlds = worlds[:0]
